@@ -500,7 +500,7 @@ func c07Replay(pl json.RawMessage) (string, []core.Violation) {
 func init() {
 	core.Register(&core.PropSpec{
 		ID: "C07", Level: "exploration",
-		Rule:     "string literals in both quote styles: every \\xHH, every \\uHHHH, \\u{...} for 37 boundary code points (every power-of-two plane boundary up to U+10FFFF; the reference engine itself rejects U+10FFFF, which is counted as outside the domain) x 1..8 digits x case, every ASCII byte raw / backslash-escaped / embedded, line continuations, raw UTF-8 text, ALL pairs over a 45-fragment alphabet (thorough: 61) and all triples over 16 (thorough: 30); backtick strings: all sequences <= 3 (thorough 4) over 14 fragments incl. escaped backtick, raw LF, trailing spaces + LF, CRLF, ${a}; numbers: 0..1000, 64-bit boundaries, all fractions with <=3+3 digits over {0,1,5,9}, exponent shapes, every hex/binary/octal literal of <= 2-3 digits + 64-bit boundaries; each accepted literal's value (UTF-16 code units / String(v)) is compared between source and emitted code (compact, pretty, pretty+tabs without semicolons) on the reference engine. Literals the engine rejects are outside the domain; literals xjs rejects are counted (acceptance is C02's subject). non-trivial = accepted literal compared (every literal is distinct) Added families: every first character of a literal body after every operator (and after unary - ! - -); literals as object keys (28 keys x both quotes) and number literals as member-access objects; literal interplay (first literal with quote/comment characters or escapes at its end, second multi-line with trailing blanks, same line and different lines of one function body); long literals: 6 kinds (both quotes, raw, raw with line breaks, escapes, long fraction) x 23 lengths 2^8, 2^12, 2^16, 2^20 (each -2..+2), 100000, 1.5 MiB, 2 MiB+1, value observed through length, ends and marker positions; escape adjacency: every (backslash + printable byte, raw printable byte) pair and the reverse in both quote styles and in backtick strings.",
+		Rule:     "string literals in both quote styles: every \\xHH, every \\uHHHH, \\u{...} for 37 boundary code points (every power-of-two plane boundary up to U+10FFFF; the reference engine itself rejects U+10FFFF, which is counted as outside the domain) x 1..8 digits x case, every ASCII byte raw / backslash-escaped / embedded, line continuations, raw UTF-8 text, ALL pairs over a 45-fragment alphabet (thorough: 61) and all triples over 16 (thorough: 30); backtick strings: all sequences <= 3 (thorough 4) over 14 fragments incl. escaped backtick, raw LF, trailing spaces + LF, CRLF, ${a}; numbers: 0..1000, 64-bit boundaries, all fractions with <=3+3 digits over {0,1,5,9}, exponent shapes, every hex/binary/octal literal of <= 3 digits + 64-bit boundaries, hexadecimal literals of 4..5 (6) digits over the look-alike digits {0,1,e,E,b,B,d,f}, exponents with leading zeros; each accepted literal's value (UTF-16 code units / String(v)) is compared between source and emitted code (compact, pretty, pretty+tabs without semicolons) on the reference engine. Literals the engine rejects are outside the domain; literals xjs rejects are counted (acceptance is C02's subject). non-trivial = accepted literal compared (every literal is distinct) Added families: every first character of a literal body after every operator (and after unary - ! - -); literals as object keys (28 keys x both quotes) and number literals as member-access objects; literal interplay (first literal with quote/comment characters or escapes at its end, second multi-line with trailing blanks, same line and different lines of one function body); long literals: 6 kinds (both quotes, raw, raw with line breaks, escapes, long fraction) x 23 lengths 2^8, 2^12, 2^16, 2^20 (each -2..+2), 100000, 1.5 MiB, 2 MiB+1, value observed through length, ends and marker positions; escape adjacency: every (backslash + printable byte, raw printable byte) pair and the reverse in both quote styles and in backtick strings.",
 		Assume:   []string{"goja evaluates literals per ECMAScript (both sides use it)"},
 		QuickSec: 300, ThorSec: 1800, Run: c07Run, Replay: c07Replay,
 		Evals: "literal_evaluations", Nontriv: "literals",
@@ -553,9 +553,6 @@ func c07Numbers(thorough bool) []string {
 	}{{"0x", "0123456789abcdefABCDEF"}, {"0X", "019aFf"}, {"0b", "01"}, {"0B", "01"}, {"0o", "01234567"}, {"0O", "0157"}}
 	for _, bs := range bases {
 		for L := 1; L <= 3; L++ {
-			if L == 3 && len(bs.digs) > 8 && !thorough {
-				continue
-			}
 			gen.EachSeq(len(bs.digs), L, func(idx []int) bool {
 				s := bs.p
 				for _, x := range idx {
@@ -564,6 +561,35 @@ func c07Numbers(thorough bool) []string {
 				add(s)
 				return true
 			})
+		}
+	}
+	// literals of one base that look like another shape: hexadecimal digits e/E (exponent marker), b/B, o-like 0,
+	// d/f (suffix letters elsewhere) in every arrangement of 4..5 (6) digits
+	look := "01eEbBdf"
+	maxL := 5
+	if thorough {
+		maxL = 6
+	}
+	for L := 4; L <= maxL; L++ {
+		if L == maxL {
+			look = "01eEb"
+		}
+		gen.EachSeq(len(look), L, func(idx []int) bool {
+			s := "0x"
+			for _, x := range idx {
+				s += string(look[x])
+			}
+			add(s)
+			return true
+		})
+	}
+	for _, m := range []string{"1", "10", "1.0", "1.50", "0.0", "100", "1.000", "0.10"} {
+		for _, e := range []string{"e", "E"} {
+			for _, sg := range []string{"", "+", "-"} {
+				for _, x := range []string{"0", "1", "01", "001", "10", "010", "100", "000"} {
+					add(m + e + sg + x)
+				}
+			}
 		}
 	}
 	for _, s := range []string{"0x7fffffffffffffff", "0x8000000000000000", "0xffffffffffffffff", "0x10000000000000000", "0b" + strings.Repeat("1", 63), "0b" + strings.Repeat("1", 64), "0o777777777777777777777", "0o1777777777777777777777", "0o2000000000000000000000"} {
